@@ -1,5 +1,5 @@
 From Coq Require Import Extraction ExtrOcamlBasic.
-From RV Require Import Base.Bytes Base.SortedMap Btree.Tree Btree.Read Btree.Inst Btree.Mutator Btree.Shape Btree.ShapeInst.
+From RV Require Import Base.Bytes Base.SortedMap Btree.Tree Btree.Read Btree.Inst Btree.Mutator Btree.Shape Btree.ShapeInst Btree.Guard Btree.ShapeGuard.
 Extraction Language OCaml.
 Extraction "../ocaml/gen/c04_model.ml"
   SortedMap.get SortedMap.insert SortedMap.remove SortedMap.range SortedMap.bounds_empty
@@ -9,7 +9,8 @@ Extraction "../ocaml/gen/c04_model.ml"
   Inst.key_cmp Inst.pred_mod Inst.key_of_u64_bytes Inst.key_size Inst.val_size
   Bytes.le_decode Bytes.le_encode
   Shape.erase_tree Shape.s_commit Shape.s_insert Shape.s_delete Shape.s_pop_first Shape.s_pop_last
-  Shape.s_insert_tag Shape.s_delete_tag_list
+  Tree.abs_tree Shape.s_insert_tag Shape.s_delete_tag_list
+  ShapeGuard.s_apply_gop ShapeGuard.s_get_mut ShapeGuard.s_guard_set ShapeGuard.s_guard_tag ShapeInst.m_apply_gop ShapeInst.blank_bytes
   Shape.s_oracle Shape.sempty Shape.order_for Shape.alloc_for
   ShapeInst.key_sep_left ShapeInst.key_sep_bytes ShapeInst.key_sep_str
   ShapeInst.m_insert ShapeInst.m_delete ShapeInst.m_tree_checkb
